@@ -37,6 +37,10 @@ fn main() {
         // debugging aid: vcheck sh '<script>' [seed]
         install_panic_hook();
         let mut setup = vsys::Setup::script(&args[2]);
+        if std::env::var_os("VCHECK_SH_INTERACTIVE").is_some() {
+            setup.argv = vec!["yash".into(), "-i".into()];
+            setup.stdin = Some(args[2].clone().into_bytes());
+        }
         if let Some(seed) = args.get(3).and_then(|s| s.parse().ok()) {
             setup.chooser = vsys::Chooser::Seeded(seed);
         }
